@@ -31,11 +31,16 @@ def make_search(mido, L, reps):
     def build(hist):
         s = Sys(mido)
         for b in hist:
-            s.parser.feed_byte(b)
+            if isinstance(b, tuple):
+                s.parser.feed(list(b[1]) if b[2] == 'list' else bytes(b[1]))
+                s.fed.extend(b[1])
+            else:
+                s.parser.feed_byte(b)
+                s.fed.append(b)
             s.out.extend(s.parser)
-            s.fed.append(b)
         return s
 
+    LOOKAHEAD = (0x04, 0x7F, 0xF7, 0xF8, 0x90)
     CHUNKS = ((0x80, 2, 3), (0xC1, 5), (0xF0, 1, 0xF7), (0xF8,), (0xF2, 1, 2),
               (0x93, 4), (5, 6), (0xF7, 0x94, 7, 8))
 
@@ -75,7 +80,9 @@ def make_search(mido, L, reps):
     def check(s, hist, b, obs, violation):
         if isinstance(b, tuple):
             case = {'kind': 'chunked', 'first': flat(hist), 'chunk': list(b[1]),
-                    'form': b[2]}
+                    'form': b[2],
+                    'history': [list(h[1]) if isinstance(h, tuple) else h
+                                for h in hist] + [list(b[1])]}
             if obs[0] == 'raised':
                 violation(f'closure/raised-chunk/{type(obs[1]).__name__}',
                           f'feed_byte x {hexs(flat(hist))} then '
@@ -86,8 +93,32 @@ def make_search(mido, L, reps):
                 violation('closure/chunk-' + r[0],
                           f'feed_byte x {hexs(flat(hist))} then '
                           f'feed({hexs(b[1])}) -> {s.out!r}: {r[1]}', case)
+                return
+            # One-byte lookahead with the TRUE history (the state reached by a
+            # chunk feed is not merged with others before this is checked): a
+            # stale partial message that survived the chunk shows up here.
+            base_fed, base_out = list(s.fed), list(s.out)
+            for nb in LOOKAHEAD:
+                s2 = build(hist + (b,))
+                try:
+                    s2.parser.feed_byte(nb)
+                    s2.out.extend(s2.parser)
+                except Exception as e:
+                    violation(f'closure/raised-after-chunk/{type(e).__name__}',
+                              f'{hexs(base_fed)} then {nb:02X} raised {e!r}',
+                              dict(case, then=nb))
+                    continue
+                s2.fed.append(nb)
+                r = stream_oracle(mido, s2.fed, s2.out)
+                if r is not None:
+                    violation('closure/after-chunk-' + r[0],
+                              f'feed_byte x {hexs(flat(hist))}, '
+                              f'feed({hexs(b[1])}), feed_byte({nb:02X}) -> '
+                              f'{s2.out!r}: {r[1]}', dict(case, then=nb))
             return
-        case = {'kind': 'stream', 'bytes': list(hist) + [b]}
+        case = {'kind': 'stream', 'bytes': flat(hist) + [b],
+                'history': [list(h[1]) if isinstance(h, tuple) else h
+                            for h in hist] + [b]}
         if obs[0] == 'raised':
             violation(f'closure/raised/{type(obs[1]).__name__}',
                       f'feeding {hexs(s.fed)} raised {obs[1]!r}', case)
@@ -128,10 +159,10 @@ def make_search(mido, L, reps):
 
     def expand(s, hist, b):
         if isinstance(b, tuple):
-            return False        # chunk feeds are checked, not expanded
+            return False    # chunk feeds: checked with a one-byte lookahead
         if b >= 0x80:
             return True
-        return b in reps and data_run(hist + (b,)) <= L
+        return b in reps and data_run(tuple(flat(hist)) + (b,)) <= L
 
     return Search(build, ops, apply, check, key, expand=expand)
 
@@ -259,7 +290,12 @@ def check_case(case):
             p.feed(list(case['chunk']) if case['form'] == 'list'
                    else bytes(case['chunk']))
             out.extend(p)
-            r = stream_oracle(mido, case['first'] + case['chunk'], out)
+            fed = case['first'] + case['chunk']
+            if 'then' in case:
+                p.feed_byte(case['then'])
+                out.extend(p)
+                fed = fed + [case['then']]
+            r = stream_oracle(mido, fed, out)
             if r:
                 acc.violation('closure/chunk-' + r[0], r[1])
         except Exception as e:
